@@ -391,8 +391,10 @@ class ExcelInPython:
             return "#NUM!"
         match mode:
             case 'Y':
-                return (date_end - date_start).days // (366 if calendar.isleap(date_start.year) and
-                                                        date_start.month <= 2 else 365)
+                result = date_end.year - date_start.year
+                if (date_end.month, date_end.day) < (date_start.month, date_start.day):
+                    return result - 1
+                return result
             case 'M':
                 result = 12 * (date_end.year - date_start.year) + (date_end.month - date_start.month)
                 if date_start.day > date_end.day:
